@@ -127,6 +127,14 @@ Definition obs_is_tokens (x : obs) : bool :=
 Definition first_post_succeeds (c : faultcase) : bool :=
   match fc_post_obs c with x :: _ => obs_is_tokens x | [] => false end.
 
+(* operations that present a one-time credential *)
+Definition presents_credential (o : op) : bool :=
+  match o with
+  | OpToken GAuthorizationCode _ | OpToken GCiba _ | OpCallback _ | OpNotifyOk _ _ => true
+  | OpAuthorize r => negb (is_nil (p_request_uri (ar_params r)))
+  | _ => false
+  end.
+
 (* 0 = fine; otherwise clause*1000 + 1:
    1 artifact in the answer without backing state in the store;
    2 positive answer although a storage call of the request failed;
@@ -156,8 +164,9 @@ Definition mon_C14 (c : faultcase) : N :=
   | None =>
       match fc_crash c with
       | Some _ =>
-          if andb (orb (existsb (is_kind_k KADel) (fc_log c)) (existsb (is_kind_k KGSave) (fc_log c)))
-                  (first_post_succeeds c) then 4001 else 0
+          if andb (presents_credential (fc_op c))
+                  (andb (orb (existsb (is_kind_k KADel) (fc_log c)) (existsb (is_kind_k KGSave) (fc_log c)))
+                        (first_post_succeeds c)) then 4001 else 0
       | None => 0
       end
   end.
@@ -204,18 +213,18 @@ Definition dcr_hits (c : dcrcase) : list (nat * ckind) :=
                                   | FMiss => if read_kind k then [(fst pf, k)] else []
                                   | FNone => [] end
                       | None => [] end) (dc_plan c).
-(* 1 a create / update answered with a document although the client is not in the store;
-   2 positive answer although a storage call failed; 3 DELETE answered 204 although the client is still there *)
+(* 6 a create / update answered with a document although the client is not in the store;
+   7 positive answer although a storage call failed; 8 DELETE answered 204 although the client is still there *)
 Definition mon_C14_dcr (c : dcrcase) : N :=
   match dc_obs c with
   | Some (DfDoc _ cid _ _) =>
-      if negb (existsb (ideq cid) (dc_post c)) then 1001
-      else match dcr_hits c with [] => 0 | _ => 2001 end
+      if negb (existsb (ideq cid) (dc_post c)) then 6001
+      else match dcr_hits c with [] => 0 | _ => 7001 end
   | Some DfDeleted =>
       match dc_op c with
-      | DfDelete r => if existsb (ideq (df_cid r)) (dc_post c) then 3001
-                      else match dcr_hits c with [] => 0 | _ => 2001 end
-      | _ => 3001
+      | DfDelete r => if existsb (ideq (df_cid r)) (dc_post c) then 8001
+                      else match dcr_hits c with [] => 0 | _ => 7001 end
+      | _ => 8001
       end
   | _ => 0
   end.
